@@ -8,6 +8,7 @@
 let fix_f2 = true
 let fix_a = true
 let fix_f1 = true
+let fix_hold = true
 
 let ios = int_of_string
 let list_of_commas s = if s = "-" then [] else List.map ios (String.split_on_char ',' s)
@@ -67,7 +68,7 @@ let () =
         let d = rlists 6 10 in let e = rpairs 8 in
         { o_save1 = a; o_save2 = b; o_gc1 = c; o_gc2 = d; o_del = e } in
       let do_op o =
-        let (s', r) = step nn mf succs subj sk fix_f2 fix_a fix_f1 cfg !st (o, orders ()) in
+        let (s', r) = step nn mf succs subj sk fix_f2 fix_a fix_f1 fix_hold cfg !st (o, orders ()) in
         st := s'; Buffer.add_string buf (" " ^ show_result r) in
       let obs s =
         let b = Buffer.create 128 in
